@@ -259,6 +259,9 @@ func run(c *hx.Ctx) error {
 	}
 	if c.Replay != "" {
 		data, err := os.ReadFile(c.Replay)
+		if err != nil { // ./check passes a path relative to /verif and runs the harness in /verif/go
+			data, err = os.ReadFile("../" + c.Replay)
+		}
 		if err != nil {
 			return err
 		}
